@@ -54,6 +54,8 @@ Definition mpz_fdiv_q (n d : Z) : Z := Z.div n d.
 Definition mpz_fdiv_r (n d : Z) : Z := Z.modulo n d.
 Definition mpz_cdiv_q (n d : Z) : Z := - Z.div (- n) d.
 Definition mpz_cdiv_r (n d : Z) : Z := - Z.modulo (- n) d.
+Definition mpz_fdiv_qr (n d : Z) : Z * Z := (Z.div n d, Z.modulo n d).
+Definition mpz_cdiv_qr (n d : Z) : Z * Z := (mpz_cdiv_q n d, mpz_cdiv_r n d).
 Definition mpz_mod (n d : Z) : Z := Z.modulo n (Z.abs d).
 (* _ui variants: d is an unsigned long; result = (value stored, word returned) *)
 Definition mpz_tdiv_q_ui (n d : Z) : Z * Z := (Z.quot n d, Z.abs (Z.rem n d)).
@@ -167,17 +169,15 @@ Definition op_div_u (this d : Z) : Z := op_div_ul this (to_u64 d).
 (* gmp++_int.h: operator / (const int32_t d) const { return this->operator/((int64_t)d); } *)
 Definition op_div_i (this d : Z) : Z := op_div_l this (to_i64 d).
 
-(* Integer& Integer::divmod(Integer& q, Integer& r, const Integer& a, const Integer& b) *)
+(* Integer& Integer::divmod(Integer& q, Integer& r, const Integer& a, const Integer& b)     (body since 4a612f5)
+     if (b > 0) mpz_fdiv_qr(q, r, a, b); else mpz_cdiv_qr(q, r, a, b);  *)
 Definition divmod_I (a b : Z) : Z * Z :=
-  let (q, r) := mpz_tdiv_qr a b in
-  if r <? 0 then
-    if 0 <? b then (q - 1 (* subin(q,1) *), r + b (* r += b *))
-    else (q + 1 (* addin(q,1) *), r - b (* r -= b *))
-  else (q, r).
+  if 0 <? b then mpz_fdiv_qr a b else mpz_cdiv_qr a b.
 
 (* Integer& Integer::divmod(Integer& q, int64_t& r, const Integer& a, const int64_t b)
+     const bool aneg = (a<0);   (read before q is written: b47935c)
      r = (int64_t)mpz_tdiv_q_ui(q, a, std::abs(b));
-     if (a<0 && r) { subin(q,(int64_t)1); r = std::abs(b) - r; }      (int64_t arithmetic)
+     if (aneg && r) { subin(q,(int64_t)1); r = std::abs(b) - r; }      (int64_t arithmetic)
      if (b<0) negin(q);                                                                   *)
 Definition divmod_l (a b : Z) : Z * Z :=
   let (q, w) := mpz_tdiv_q_ui a (to_u64 (c_abs64 b)) in
